@@ -1,6 +1,6 @@
 -- Sandbox-legal probe: walks everything reachable from _G, the string metatable and the metatable of
--- every visited value, and returns the graph through the diagnostic message.
-function validate(ctx, content)
+-- every visited value (once at load time, once inside validate) and returns both graphs through the diagnostic message.
+local function walk()
   local ids, n, edges, kinds, queue = {}, 0, {}, {}, {}
   local function id(v)
     local t = type(v)
@@ -29,4 +29,11 @@ function validate(ctx, content)
   local ks = {}
   for j = 1, n do ks[j] = string.sub(kinds[j], 1, 1) end
   return "N=" .. n .. " K=" .. table.concat(ks) .. " E=" .. table.concat(edges, ",")
+end
+
+-- the environment is inspected twice: while the chunk is loaded (top level) and inside validate()
+local at_load = walk()
+
+function validate(ctx, content)
+  return at_load .. "\n@@\n" .. walk()
 end
